@@ -1,15 +1,432 @@
 package main
 
 import (
+	"encoding/json"
+	"flag"
 	"fmt"
-
-	"golang.org/x/tools/go/packages"
-	"golang.org/x/tools/go/ssa"
-	"golang.org/x/tools/go/ssa/ssautil"
+	"os"
+	"path/filepath"
+	"regexp"
+	"sort"
+	"strconv"
+	"strings"
+	"sync"
+	"time"
 )
 
-var _ = packages.Load
-var _ ssa.BuilderMode
-var _ = ssautil.AllPackages
+const (
+	repoRoot  = "/repo"
+	verifRoot = "/verif"
+)
 
-func main() { fmt.Println("ok") }
+type KnownFinding struct {
+	Kind       string // finding | fixed
+	Property   string
+	Obligation string
+	Commit     string
+	Text       string
+}
+
+func loadKnownFindings() []KnownFinding {
+	data, err := os.ReadFile(filepath.Join(verifRoot, "KNOWN_FINDINGS"))
+	if err != nil {
+		return nil
+	}
+	var out []KnownFinding
+	re := regexp.MustCompile(`^(finding|fixed):\s+property=(C[0-9]+)\s+(?:([0-9a-f]{7,40})\s+)?obligation=(\S+)\s*(?:::\s*(.*))?$`)
+	for _, ln := range strings.Split(string(data), "\n") {
+		ln = strings.TrimSpace(ln)
+		if m := re.FindStringSubmatch(ln); m != nil {
+			out = append(out, KnownFinding{Kind: m[1], Property: m[2], Commit: m[3], Obligation: m[4], Text: m[5]})
+		}
+	}
+	return out
+}
+
+type oblJob struct {
+	fr *FuncResult
+	o  *Obligation
+	expectSat bool
+}
+
+func main() {
+	if len(os.Args) < 2 {
+		fmt.Fprintln(os.Stderr, "usage: vcgen check <Cxx> [--tier quick|thorough] | vcgen replay <file>")
+		os.Exit(2)
+	}
+	switch os.Args[1] {
+	case "check":
+		os.Exit(cmdCheck(os.Args[2:]))
+	case "replay":
+		os.Exit(cmdReplay(os.Args[2:]))
+	case "parse":
+		cs, err := LoadContracts(repoRoot, []string{filepath.Join(verifRoot, "stdlib.contracts")})
+		if err != nil {
+			fmt.Println("ERROR", err)
+			os.Exit(1)
+		}
+		fmt.Printf("%d function contracts, %d spec funcs, %d lemmas\n", len(cs.Funcs), len(cs.SpecFuncs), len(cs.Lemmas))
+	default:
+		fmt.Fprintln(os.Stderr, "unknown command")
+		os.Exit(2)
+	}
+}
+
+func cmdCheck(args []string) int {
+	fs := flag.NewFlagSet("check", flag.ExitOnError)
+	tier := fs.String("tier", "", "quick or thorough")
+	only := fs.String("only", "", "restrict to functions whose name contains this")
+	keep := fs.Bool("keep", false, "keep SMT files of proved obligations")
+	verbose := fs.Bool("v", false, "verbose")
+	var prop string
+	if len(args) > 0 && !strings.HasPrefix(args[0], "-") {
+		prop = args[0]
+		args = args[1:]
+	}
+	fs.Parse(args)
+	if prop == "" {
+		fmt.Fprintln(os.Stderr, "property id required")
+		return 2
+	}
+	if *tier == "" {
+		*tier = os.Getenv("VERIF_TIER")
+	}
+	if *tier == "" {
+		*tier = "quick"
+	}
+	seed := 0
+	if s := os.Getenv("VERIF_SEED"); s != "" {
+		seed, _ = strconv.Atoi(s)
+	}
+	start := time.Now()
+	timeoutS := 20
+	if *tier == "thorough" {
+		timeoutS = 120
+	}
+	workDir := filepath.Join(verifRoot, "work", prop)
+	os.RemoveAll(workDir)
+	os.MkdirAll(workDir, 0o755)
+	replayDir := filepath.Join(verifRoot, "replays")
+	os.MkdirAll(replayDir, 0o755)
+
+	fail := func(msg string) int {
+		// an engine-level failure is reported as a violation of the check itself only when the tree changed;
+		// we cannot tell here, so report loudly and exit 1 with a replay file carrying the reason.
+		rp := filepath.Join(replayDir, prop+"_engine.json")
+		writeJSON(rp, map[string]any{"property": prop, "obligation": "engine", "verdict": "no-failing-input-found", "solver_output": msg})
+		fmt.Printf("VIOLATION property=%s replay=%s no-failing-input-found\n", prop, rp)
+		fmt.Println("reason:", msg)
+		writeEvidence(prop, *tier, seed, nil, nil, time.Since(start).Seconds(), 1, []string{msg}, nil, nil)
+		return 1
+	}
+
+	cs, err := LoadContracts(repoRoot, []string{filepath.Join(verifRoot, "stdlib.contracts")})
+	if err != nil {
+		return fail("contract files do not parse: " + err.Error())
+	}
+	// functions and lemmas serving this property
+	var fcs []*FuncContract
+	pkgs := map[string]bool{}
+	for _, fc := range cs.Funcs {
+		if fc.Tags[prop] && !fc.External {
+			fcs = append(fcs, fc)
+			pkgs[fc.Pkg] = true
+		}
+	}
+	var lemmas []*Lemma
+	for _, lm := range cs.Lemmas {
+		for _, t := range lm.Tags {
+			if t == prop {
+				lemmas = append(lemmas, lm)
+				if lm.Pkg != "" {
+					pkgs[lm.Pkg] = true
+				}
+			}
+		}
+	}
+	if len(fcs) == 0 && len(lemmas) == 0 {
+		return fail("no contract carries tag [" + prop + "] (vacuity guard: zero obligations)")
+	}
+	tags := "verif"
+	var patterns []string
+	for p := range pkgs {
+		patterns = append(patterns, p)
+		if strings.Contains(p, "db/mysql") && !strings.Contains(tags, "mysql") {
+			tags += ",mysql"
+		}
+		if strings.Contains(p, "db/postgres") && !strings.Contains(tags, "postgres") {
+			tags += ",postgres"
+		}
+	}
+	sort.Strings(patterns)
+	prog, err := LoadProg(repoRoot, patterns, tags, cs)
+	if err != nil {
+		return fail("cannot load packages: " + err.Error())
+	}
+	prog.computeWriteSets()
+	loadS := time.Since(start).Seconds()
+
+	var results []*FuncResult
+	for _, fc := range fcs {
+		if *only != "" && !strings.Contains(fc.Key(), *only) {
+			continue
+		}
+		t0 := time.Now()
+		r := VerifyFunc(prog, fc)
+		if *verbose {
+			fmt.Printf("  generated %-50s %3d obligations %6.2fs %s\n", r.Name, len(r.Obls), time.Since(t0).Seconds(), r.Err)
+		}
+		results = append(results, r)
+	}
+	for _, lm := range lemmas {
+		if *only != "" && !strings.Contains(lm.Name, *only) {
+			continue
+		}
+		results = append(results, VerifyLemma(prog, lm))
+	}
+	genS := time.Since(start).Seconds() - loadS
+
+	// solve
+	var jobs []oblJob
+	for _, r := range results {
+		for _, o := range r.Obls {
+			jobs = append(jobs, oblJob{r, o, false})
+		}
+		if r.PreSat != nil {
+			jobs = append(jobs, oblJob{r, r.PreSat, true})
+		}
+		if r.Canary != nil {
+			jobs = append(jobs, oblJob{r, r.Canary, true})
+		}
+	}
+	// scripts are printed sequentially (the term pool is not concurrent), solved in parallel
+	type prepared struct {
+		job    oblJob
+		script string
+		size   int
+		path   string
+	}
+	var preps []prepared
+	for i, j := range jobs {
+		if j.o.Taint != "" && !j.expectSat {
+			j.o.Status = "unsupported"
+			j.o.Output = j.o.Taint
+			continue
+		}
+		sc, sz := obligationScript(j.fr, j.o, nil)
+		p := filepath.Join(workDir, fmt.Sprintf("%04d_%s.smt2", i, fileSafe(j.o.Name)))
+		preps = append(preps, prepared{j, sc, sz, p})
+	}
+	var wg sync.WaitGroup
+	sem := make(chan struct{}, 6)
+	var solverSeconds float64
+	var mu sync.Mutex
+	for _, p := range preps {
+		wg.Add(1)
+		sem <- struct{}{}
+		go func(p prepared) {
+			defer wg.Done()
+			defer func() { <-sem }()
+			to := timeoutS
+			if p.job.expectSat {
+				to = 10
+			}
+			r := runSolvers(p.script, p.path, to, *tier == "thorough" && !p.job.expectSat, seed)
+			o := p.job.o
+			o.Backend, o.Seconds, o.Output = r.Backend, r.Seconds, r.Output
+			switch r.Status {
+			case "unsat":
+				o.Status = "proved"
+			case "sat":
+				o.Status = "failed"
+			default:
+				o.Status = "unknown"
+			}
+			if r.Status == "disagree" {
+				o.Status = "unknown"
+			}
+			mu.Lock()
+			solverSeconds += r.Seconds
+			mu.Unlock()
+			if o.Status == "proved" && !*keep {
+				os.Remove(p.path)
+			}
+		}(p)
+	}
+	wg.Wait()
+
+	// interpret
+	known := loadKnownFindings()
+	isKnown := func(name string) *KnownFinding {
+		for i := range known {
+			if known[i].Kind == "finding" && known[i].Property == prop && known[i].Obligation == name {
+				return &known[i]
+			}
+		}
+		return nil
+	}
+	total, discharged := 0, 0
+	violations := 0
+	var samples []any
+	var funcs []string
+	var knownHit []string
+	var vacuity []string
+	assume := map[string]bool{}
+	trusted := map[string]bool{}
+	var notes []string
+	backends := map[string]int{}
+	for _, r := range results {
+		funcs = append(funcs, r.Name)
+		for _, u := range r.Used {
+			if strings.HasPrefix(u, "assumed contract") || strings.HasPrefix(u, "external") || strings.HasPrefix(u, "interface method") {
+				trusted[u] = true
+			} else {
+				assume[u] = true
+			}
+		}
+		for _, u := range r.Unmod {
+			assume["unmodelled callee: "+u] = true
+		}
+		notes = append(notes, r.Notes...)
+		if r.Err != "" {
+			violations++
+			rp := filepath.Join(replayDir, prop+"_"+fileSafe(r.Name)+".json")
+			writeJSON(rp, map[string]any{"property": prop, "obligation": r.Name + "#contract", "verdict": "no-failing-input-found", "solver_output": r.Err})
+			fmt.Printf("VIOLATION property=%s replay=%s no-failing-input-found\n", prop, rp)
+			fmt.Printf("  %s: %s\n", r.Name, r.Err)
+			continue
+		}
+		// vacuity guards
+		for _, g := range []*Obligation{r.PreSat, r.Canary} {
+			if g == nil {
+				continue
+			}
+			switch g.Status {
+			case "failed": // sat: as required
+				vacuity = append(vacuity, g.Name+": ok")
+			case "proved":
+				violations++
+				rp := filepath.Join(replayDir, prop+"_"+fileSafe(g.Name)+".json")
+				writeJSON(rp, map[string]any{"property": prop, "obligation": g.Name, "verdict": "no-failing-input-found", "solver_output": "vacuity guard: the function's precondition/exit is unsatisfiable, every obligation would hold trivially"})
+				fmt.Printf("VIOLATION property=%s replay=%s no-failing-input-found\n", prop, rp)
+				fmt.Printf("  vacuity guard failed: %s\n", g.Name)
+			default:
+				vacuity = append(vacuity, g.Name+": undecided ("+g.Status+")")
+			}
+		}
+		for _, o := range r.Obls {
+			if kf := isKnown(o.Name); kf != nil {
+				if o.Status == "proved" {
+					// a listed finding that no longer fails: the list is stale, but the property holds there
+					notes = append(notes, "known finding "+o.Name+" is now discharged")
+					total++
+					discharged++
+					continue
+				}
+				fmt.Printf("KNOWN-FINDING: property=%s %s %s\n", prop, o.Name, kf.Text)
+				knownHit = append(knownHit, o.Name)
+				continue
+			}
+			total++
+			if o.Status == "proved" {
+				discharged++
+				backends[o.Backend]++
+				if len(samples) < 12 {
+					samples = append(samples, map[string]any{"obligation": o.Name, "kind": o.Kind, "backend": o.Backend, "seconds": round3(o.Seconds), "clause": o.Src})
+				}
+				continue
+			}
+			violations++
+			rp := filepath.Join(replayDir, prop+"_"+fileSafe(o.Name)+".json")
+			verdict := replayObligation(prog, r, o, prop, rp, timeoutS)
+			suffix := ""
+			if verdict != "reproduced" {
+				suffix = " no-failing-input-found"
+			}
+			fmt.Printf("VIOLATION property=%s replay=%s%s\n", prop, rp, suffix)
+			fmt.Printf("  obligation %s: %s (%s) %s\n", o.Name, o.Status, o.Src, firstLines(o.Output, 2))
+		}
+	}
+	if total == 0 && violations == 0 {
+		return fail("zero obligations generated (vacuity guard)")
+	}
+	sort.Strings(funcs)
+	wall := time.Since(start).Seconds()
+	extra := map[string]any{
+		"functions_under_contract": funcs,
+		"known_findings":           knownHit,
+		"vacuity":                  vacuity,
+		"solver_seconds_total":     round3(solverSeconds),
+		"load_seconds":             round3(loadS),
+		"generation_seconds":       round3(genS),
+		"backends":                 backends,
+		"notes":                    notes,
+		"bounded":                  []string{},
+	}
+	writeEvidence(prop, *tier, seed, &[2]int{total, discharged}, samples, wall, violations, sortedKeys(assume), sortedKeys(trusted), extra)
+	fmt.Printf("%s: %d obligations, %d discharged, %d known findings, %d violations, %.1fs (load %.1fs, gen %.1fs)\n", prop, total, discharged, len(knownHit), violations, wall, loadS, genS)
+	if violations > 0 {
+		return 1
+	}
+	return 0
+}
+
+func round3(f float64) float64 { return float64(int(f*1000)) / 1000 }
+
+func fileSafe(s string) string {
+	var sb strings.Builder
+	for _, c := range s {
+		if c >= 'a' && c <= 'z' || c >= 'A' && c <= 'Z' || c >= '0' && c <= '9' || c == '.' || c == '_' || c == '-' {
+			sb.WriteRune(c)
+		} else {
+			sb.WriteByte('_')
+		}
+	}
+	return sb.String()
+}
+
+func writeJSON(path string, v any) {
+	data, _ := json.MarshalIndent(v, "", " ")
+	os.MkdirAll(filepath.Dir(path), 0o755)
+	os.WriteFile(path, data, 0o644)
+}
+
+func writeEvidence(prop, tier string, seed int, counts *[2]int, samples []any, wall float64, violations int, assumptions, trusted []string, extra map[string]any) {
+	cov := map[string]any{
+		"checker_cmd":  "./check " + prop + " --tier " + tier,
+		"trusted_base": append([]string{"go/ssa (x/tools v0.29.0) translation of /repo's working tree", "vcgen VC generator (this repository, /verif/engine)", "SMT solvers z3 4.8.12, z3 5.1.0, cvc5 1.0 (an obligation counts when one answers unsat and none answers sat)"}, trusted...),
+		"explanation":  "every obligation is a refutation query generated from the SSA of the functions under contract; discharged = unsat",
+	}
+	if counts != nil {
+		cov["obligations"] = counts[0]
+		cov["discharged"] = counts[1]
+	} else {
+		cov["obligations"] = 0
+		cov["discharged"] = 0
+	}
+	if len(samples) == 0 {
+		samples = []any{"none"}
+	}
+	cov["samples"] = samples
+	for k, v := range extra {
+		cov[k] = v
+	}
+	if assumptions == nil {
+		assumptions = []string{}
+	}
+	assumptions = append(assumptions,
+		"signed Go integers are mathematical integers (no wrap-around); unsigned types are exact bit-vectors",
+		"run-time panics (index out of range, nil dereference) are assumed absent outside functions marked safe/nopanic",
+		"one goroutine executes a function body at a time (no interleaving inside a function under contract)")
+	ev := map[string]any{
+		"property_id": prop,
+		"tier":        tier,
+		"seed":        seed,
+		"level":       "proof",
+		"coverage":    cov,
+		"assumptions": assumptions,
+		"wall_s":      round3(wall),
+		"violations":  violations,
+	}
+	writeJSON(filepath.Join(verifRoot, "evidence", prop+".json"), ev)
+}
